@@ -62,8 +62,35 @@ func (p *Program) newTopFrame(ex *Exec, fn *ssa.Function, ct *Contract) (*Frame,
 			}
 		}
 	}
-	if len(fn.FreeVars) > 0 {
-		panic(unsupported("closure as a top-level function"))
+	// a function literal verified on its own: each captured variable has an arbitrary value of its type at the call; the
+	// contract can name it (reads its current value)
+	for _, fv := range fn.FreeVars {
+		pt, ok := fv.Type().(*types.Pointer)
+		if !ok {
+			panic(unsupported("captured variable of type " + fv.Type().String()))
+		}
+		if st.free == nil {
+			st.free = map[*ssa.FreeVar]Value{}
+		}
+		var v Value
+		switch u := pt.Elem().Underlying().(type) {
+		case *types.Pointer:
+			if _, isStruct := u.Elem().Underlying().(*types.Struct); !isStruct {
+				// e.g. a *T local captured by reference where T is not a struct: opaque
+				v = Term{S: ex.vc.fresh("fv_"+fv.Name(), "Int"), T: pt.Elem()}
+			} else {
+				r := ex.vc.fresh("fv_"+fv.Name(), "Int")
+				ex.refFact(st, r)
+				ex.assume(st, sx("<=", "0", r))
+				v = Term{S: r, T: pt.Elem()}
+			}
+		case *types.Signature:
+			v = Term{S: ex.vc.fresh("fv_"+fv.Name(), "Int"), T: pt.Elem()}
+		default:
+			v = ex.havocValue(st, "fv_"+fv.Name(), pt.Elem())
+		}
+		st.free[fv] = v
+		fr.vals[fv] = Ptr{Location{Root: FreeRoot{fv}, T: pt.Elem(), RT: pt.Elem()}}
 	}
 	return fr, st
 }
@@ -500,6 +527,18 @@ func (p *Program) findFunction(ct *Contract) *ssa.Function {
 	pk := p.pkgs[ct.PkgPath]
 	if pk == nil {
 		return nil
+	}
+	if ct.Recv == "" && strings.Contains(ct.Name, "$") {
+		// a function literal, named as go/ssa names it: <enclosing function or method>$<n>
+		var found *ssa.Function
+		for g := range ssautil.AllFunctions(p.ssaProg) {
+			if g.Name() == ct.Name && g.Parent() != nil && fnPkg(g) == pk.Pkg && len(g.Blocks) > 0 {
+				if found == nil || g.Pos() < found.Pos() {
+					found = g
+				}
+			}
+		}
+		return found
 	}
 	if ct.Recv == "" {
 		f := pk.Func(ct.Name)
